@@ -791,7 +791,9 @@ def _wrap_draw():
         if not HUB.active:
             return orig_vis(self, **kwargs)
         given = dict(kwargs)
-        if isinstance(given.get("aliases"), dict):
+        import collections.abc as _abc
+
+        if isinstance(given.get("aliases"), _abc.Mapping):
             # what the caller specified: a copy taken before the call, or - when a driver re-uses one dict object
             # over several calls - the specification the driver says it wrote into that object
             intent = getattr(HUB, "alias_intent", None)
